@@ -224,7 +224,7 @@ func init() {
 			}})
 	}
 	register(&Check{ID: "C15", Level: "exploration", Workers: 16,
-		Rule: "engine E: RandomIndex for all (total<=9, count<total) x seeds {0..N} u {2^k} u big values, and RandomSP for all node populations (multisets over 11 attribute classes, both store orders) x ignore lists (size<=2) x count 1..4 x cursor {unset,0..5} x 10 seeds, each result checked for distinctness, ignore-list, eligibility and size; engine X: every shard assignment made by store/timeout/migrate in the lifecycle and fault-sequence explorations; distinct_nontrivial = distinct (index tuple) + (count/eligible/returned) outcomes + states with a completed shard",
+		Rule:        "engine E: RandomIndex for all (total<=9, count<total) x seeds {0..N} u {2^k} u big values, and RandomSP for all node populations (multisets over 11 attribute classes, both store orders) x ignore lists (size<=2) x count 1..4 x cursor {unset,0..5} x 10 seeds, each result checked for distinctness, ignore-list, eligibility and size; engine X: every shard assignment made by store/timeout/migrate in the lifecycle and fault-sequence explorations; distinct_nontrivial = distinct (index tuple) + (count/eligible/returned) outcomes + states with a completed shard",
 		Assumptions: append([]string{"populations larger than 5 nodes and attribute values outside the 11 classes are not covered"}, lifeAssumptions...),
 		Scenarios: func(tier string) []*engine.Scenario {
 			out := append(lifeFamily("C15", tier, props("C15"), nil), TimeoutFamily("C15", tier, props("C15"))...)
@@ -237,7 +237,7 @@ func init() {
 		},
 		Extra: func(tier string, shard, of int) ExtraResult { return SelectExtra(tier, shard, of, "C15") }})
 	register(&Check{ID: "C02", Level: "model_checking", Workers: 16,
-		Rule: "engine X with halt reporting: every EndBegin (custom end-blockers + node begin-blocker) of the lifecycle, capacity and fault-sequence explorations, with rewards off and on, must return without panic and within the CPU watchdog; every tx that panics must be a rejected tx (checked against real DeliverTx in the conformance leg); engine E: RandomIndex / RandomSP / GetNextSuperNodes under the CPU guard over the enumerated inputs; non-trivial = distinct states holding at least one completed shard",
+		Rule:        "engine X with halt reporting: every EndBegin (custom end-blockers + node begin-blocker) of the lifecycle, capacity and fault-sequence explorations, with rewards off and on, must return without panic and within the CPU watchdog; every tx that panics must be a rejected tx (checked against real DeliverTx in the conformance leg); engine E: RandomIndex / RandomSP / GetNextSuperNodes under the CPU guard over the enumerated inputs; non-trivial = distinct states holding at least one completed shard",
 		Assumptions: append([]string{"bounded time is decided by a CPU watchdog (25 CPU-seconds per transition, slowest terminating transition is milliseconds), not by a termination proof"}, lifeAssumptions...),
 		Scenarios: func(tier string) []*engine.Scenario {
 			out := lifeFamily("C02", tier, props("C02"), nil)
@@ -268,7 +268,7 @@ func init() {
 			return a
 		}})
 	register(&Check{ID: "C08", Level: "model_checking", Workers: 16,
-		Rule: "explicit-state DFS (iterative deepening) with node.BeginBlocker executed at every height: {add capacity, remove capacity (round and non-round sizes), claim, store+complete, terminate, next block} by two providers under two parameter sets (pledge above / below baseline); per block: supply delta == coinbase events == reward counter delta <= schedule bound; per state: claimed + claimable per provider vs an independent capacity x blocks reference, sum <= minted; per claim: amount and recipient; non-trivial = distinct states after at least one minting block with a provider share",
+		Rule:        "explicit-state DFS (iterative deepening) with node.BeginBlocker executed at every height: {add capacity, remove capacity (round and non-round sizes), claim, store+complete, terminate, next block} by two providers under two parameter sets (pledge above / below baseline); per block: supply delta == coinbase events == reward counter delta <= schedule bound; per state: claimed + claimable per provider vs an independent capacity x blocks reference, sum <= minted; per claim: amount and recipient; non-trivial = distinct states after at least one minting block with a provider share",
 		Assumptions: append([]string{"halving ages > 0 are not reached (TotalReward stays far below the 400e12 cap in bounded runs)"}, lifeAssumptions...),
 		Scenarios: func(tier string) []*engine.Scenario {
 			d := 6
@@ -288,41 +288,41 @@ func init() {
 		}})
 	authAssume := []string{"principals: owner, read-write grantee, read-only grantee, stranger (did:key) and a sid owner/attacker pair; relayers: the named gateway and the adversary's own registered node", "signature scheme and DID resolution of the sao-did library are trusted", "SDK modules are trusted"}
 	register(&Check{ID: "C09", Level: "model_checking", Workers: 16,
-		Rule: "explicit-state DFS over a small lifecycle (authorised updates by owner / rw grantee, renew, permission change, terminate, completion, blocks) in which EVERY state offers every unauthorised request: {update, force-push, renew, terminate, permission} x signer {ro grantee, stranger, rw grantee for owner-only types} x relayer {named gateway, adversary's node} x crafted commit ids / owner-field mismatch / replayed signatures / sid kid variants; an accepted unauthorised request must leave the model record, alias, orders, shards and expiry entry byte-identical; non-trivial = distinct states with a committed model",
+		Rule:        "explicit-state DFS over a small lifecycle (authorised updates by owner / rw grantee, renew, permission change, terminate, completion, blocks) in which EVERY state offers every unauthorised request: {update, force-push, renew, terminate, permission} x signer {ro grantee, stranger, rw grantee for owner-only types} x relayer {named gateway, adversary's node} x crafted commit ids / owner-field mismatch / replayed signatures / sid kid variants; an accepted unauthorised request must leave the model record, alias, orders, shards and expiry entry byte-identical; non-trivial = distinct states with a committed model",
 		Assumptions: authAssume,
 		MustSucceed: []string{"auth-update-owner", "auth-update-rw", "auth-renew-owner", "auth-terminate-rw", "auth-permission-owner", "auth-terminate-sid-owner", "complete"},
 		Scenarios:   func(tier string) []*engine.Scenario { return []*engine.Scenario{C09Scenario(tier)} }})
 	register(&Check{ID: "C10", Level: "model_checking", Workers: 16,
-		Rule: "explicit-state DFS over a small lifecycle with an adversary node whose declared TxAddresses range over subsets of {order creator, provider, itself}; in every state every message type with a creator/provider pair is sent by the adversary claiming {itself, the order's gateway, the shard's provider}, plus third-party and sponsor-misuse store submissions; every accepted adversarial message must leave all orders, shards, pledges, nodes, workers, models and all other actors' balances byte-identical; non-trivial = distinct states with a committed model",
+		Rule:        "explicit-state DFS over a small lifecycle with an adversary node whose declared TxAddresses range over subsets of {order creator, provider, itself}; in every state every message type with a creator/provider pair is sent by the adversary claiming {itself, the order's gateway, the shard's provider}, plus third-party and sponsor-misuse store submissions; every accepted adversarial message must leave all orders, shards, pledges, nodes, workers, models and all other actors' balances byte-identical; non-trivial = distinct states with a committed model",
 		Assumptions: authAssume,
 		MustSucceed: []string{"auth-store-gateway", "auth-store-hotkey", "auth-store-sponsor", "auth-cancel", "declare", "complete"},
 		Scenarios:   func(tier string) []*engine.Scenario { return []*engine.Scenario{C10Scenario(tier)} }})
 	register(&Check{ID: "C17", Level: "model_checking", Workers: 16,
-		Rule: "explicit-state DFS over the did alphabet: Binding(account in {A,B,C,eip155 E} x did in {d1,d2} x creator x proof in {valid, stale, signed by another key, proof for the other DID replayed, malformed}), Update (every partition of the account list into remove/keep, by a bound account and by a stranger), UpdatePaymentAddress (sid and key DIDs x creator x account); registry agreement clauses in every state, binding/unbinding/payment-address step clauses on every transition; non-trivial = distinct states with at least one binding",
+		Rule:        "explicit-state DFS over the did alphabet: Binding(account in {A,B,C,eip155 E} x did in {d1,d2} x creator x proof in {valid, stale, signed by another key, proof for the other DID replayed, malformed}), Update (every partition of the account list into remove/keep, by a bound account and by a stranger), UpdatePaymentAddress (sid and key DIDs x creator x account); registry agreement clauses in every state, binding/unbinding/payment-address step clauses on every transition; non-trivial = distinct states with at least one binding",
 		Assumptions: []string{"secp256k1 / EIP-191 signature verification is trusted", "three cosmos accounts, one eip155 account, two sid DIDs, two key DIDs"},
 		MustSucceed: []string{"bind", "rotate", "payaddr"},
 		Scenarios:   func(tier string) []*engine.Scenario { return []*engine.Scenario{C17Scenario(tier)} }})
 	register(&Check{ID: "C19", Level: "model_checking", Workers: 16,
-		Rule: "explicit-state DFS from a root with two completed orders: Report(creator in {fishman F1, fishman F2, ordinary node, non-node} x accused in {S1,S2} x fault in {exact, commit matches, wrong order, wrong data id, shard of other provider, nonexistent shard, provider field mismatch, other order}), Recover(creator in {accused, other provider, fishman, ordinary node, non-node}), block advance to the 600-block penalty tick and across expiry; every recorded fault is validated against the pre-state, every report/recover step must leave balances, orders, shards, nodes and other providers' pledges byte-identical; non-trivial = distinct states with at least one fault record",
+		Rule:        "explicit-state DFS from a root with two completed orders: Report(creator in {fishman F1, fishman F2, ordinary node, non-node} x accused in {S1,S2} x fault in {exact, commit matches, wrong order, wrong data id, shard of other provider, nonexistent shard, provider field mismatch, other order}), Recover(creator in {accused, other provider, fishman, ordinary node, non-node}), block advance to the 600-block penalty tick and across expiry; every recorded fault is validated against the pre-state, every report/recover step must leave balances, orders, shards, nodes and other providers' pledges byte-identical; non-trivial = distinct states with at least one fault record",
 		Assumptions: []string{"confirmation by a second fishman is unreachable in the current code (reporter comparison is always equal), so confirmed faults and the penalty settlement are not exercised; reported in DESIGN.md", "SDK modules are trusted"},
 		MustSucceed: []string{"report", "recover", "migrate", "complete", "end"},
 		Scenarios:   func(tier string) []*engine.Scenario { return []*engine.Scenario{C19Scenario(tier)} }})
 	rAssume := []string{"Tendermint is replaced by a driver that feeds the same RequestBeginBlock / DeliverTx / EndBlock / Commit stream to both replicas", "the clock and map-iteration seams are std-library overlays applied at build time of the harness binary (go build -overlay); for maps with more than 8 entries the 8 enumerated words are a subset of the runtime's freedom", "non-consensus calls are inserted between consensus calls, not concurrently with them", "cross-architecture floating point (Node.reputation float32) is not examined"}
 	register(&Check{ID: "C01", Level: "exploration", ExtraWorkers: 16,
-		Rule: "engine R: scripts (storage lifecycle with every custom message type incl. invalid twins and multi-element map-iteration sites; staking script with a delegation that fails between the two hooks) executed on real applications through ABCI; replica B differs from replica A by exactly one enumerated deviation: wall-clock offset in {-400d,-1h,+1h,+400d}, map-iteration word 1..8, Simulate(tx j) / CheckTx(tx j) / gRPC query inserted at every stream position p for every j (thorough: clock/map word switched at every position); oracle: byte-equal DeliverTx/BeginBlock/EndBlock responses and app hash at every height; distinct_nontrivial = deviations whose inserted call / environment change was actually performed",
+		Rule:        "engine R: scripts (storage lifecycle with every custom message type incl. invalid twins and multi-element map-iteration sites; staking script with a delegation that fails between the two hooks) executed on real applications through ABCI; replica B differs from replica A by exactly one enumerated deviation: wall-clock offset in {-400d,-1h,+1h,+400d}, map-iteration word 1..8, Simulate(tx j) / CheckTx(tx j) / gRPC query inserted at every stream position p for every j (thorough: clock/map word switched at every position); oracle: byte-equal DeliverTx/BeginBlock/EndBlock responses and app hash at every height; distinct_nontrivial = deviations whose inserted call / environment change was actually performed",
 		Assumptions: rAssume,
 		Extra:       func(tier string, shard, of int) ExtraResult { return ReplicaExtra("C01", tier, shard, of) }})
 	register(&Check{ID: "C03", Level: "fault_enumeration", ExtraWorkers: 16,
-		Rule: "engine R: for every script, a restart from the database (new app.New over the same DB, LoadLatestVersion) after every commit, a crash in the middle of every block after every transaction index (instance dropped, block re-executed from the last commit), and Simulate(tx j) inserted at every stream position for every j (residue of merely simulated transactions); thorough: all ordered pairs restart/mid-block crash; oracle: all later consensus responses and app hashes equal those of the uninterrupted replica; distinct_nontrivial = crash / restart / simulation points actually exercised",
+		Rule:        "engine R: for every script, a restart from the database (new app.New over the same DB, LoadLatestVersion) after every commit, a crash in the middle of every block after every transaction index (instance dropped, block re-executed from the last commit), and Simulate(tx j) inserted at every stream position for every j (residue of merely simulated transactions); thorough: all ordered pairs restart/mid-block crash; oracle: all later consensus responses and app hashes equal those of the uninterrupted replica; distinct_nontrivial = crash / restart / simulation points actually exercised",
 		Assumptions: rAssume,
 		Extra:       func(tier string, shard, of int) ExtraResult { return ReplicaExtra("C03", tier, shard, of) }})
 	register(&Check{ID: "C20", Level: "model_checking", Workers: 16,
-		Rule: "explicit-state DFS over {delegate / undelegate / redelegate by two nodes and an outsider on two validators with amounts below / at / above the share threshold, all, and more than the balance (fails between the hooks); add / remove capacity across the threshold; reset with full or partial status and validator in {unset, V, V2}; full end-blocker of the module manager (validator set updates, unbonding maturity)} from a fresh root and from a root with an existing super node; in every state: role super => full status, pledge >= threshold, own shares / validator shares >= threshold (recomputed through the staking keeper); non-trivial = distinct states with at least one super node",
+		Rule:        "explicit-state DFS over {delegate / undelegate / redelegate by two nodes and an outsider on two validators with amounts below / at / above the share threshold, all, and more than the balance (fails between the hooks); add / remove capacity across the threshold; reset with full or partial status and validator in {unset, V, V2}; full end-blocker of the module manager (validator set updates, unbonding maturity)} from a fresh root and from a root with an existing super node; in every state: role super => full status, pledge >= threshold, own shares / validator shares >= threshold (recomputed through the staking keeper); non-trivial = distinct states with at least one super node",
 		Assumptions: []string{"staking, bank and distribution modules are trusted", "two validators, two nodes, one outsider; slashing / jailing is not driven"},
 		MustSucceed: []string{"delegate", "undelegate", "redelegate", "reset", "addv", "removev", "fullend"},
 		Scenarios:   func(tier string) []*engine.Scenario { return []*engine.Scenario{C20Scenario(tier)} }})
 	register(&Check{ID: "C18", Level: "model_checking", Workers: 16, ExtraWorkers: 8,
-		Rule: "explicit-state DFS over the lifecycle (with updates, renewals, migrations), fault-report, staking / super-node and timeout alphabets; in EVERY reached state the six modules' real ExportGenesis -> JSON -> Validate() -> real InitGenesis into empty custom stores, raw comparison of the custom stores, then every enabled operation (and block advance) is applied to both the original and the re-imported state and results, stores and balances are compared; plus the full pipeline ExportAppStateAndValidators -> ValidateGenesis -> InitChain on a fresh application -> two blocks after every block of the engine-R scripts; non-trivial = distinct states with at least one order or fault record",
+		Rule:        "explicit-state DFS over the lifecycle (with updates, renewals, migrations), fault-report, staking / super-node and timeout alphabets; in EVERY reached state the six modules' real ExportGenesis -> JSON -> Validate() -> real InitGenesis into empty custom stores, raw comparison of the custom stores, then every enabled operation (and block advance) is applied to both the original and the re-imported state and results, stores and balances are compared; plus the full pipeline ExportAppStateAndValidators -> ValidateGenesis -> InitChain on a fresh application -> two blocks after every block of the engine-R scripts; non-trivial = distinct states with at least one order or fault record",
 		Assumptions: []string{"SDK modules' own export/import is trusted; their stores are copied, not round-tripped, in the engine-X leg (they are round-tripped in the full-pipeline leg)", "continuation depth is one operation per state"},
 		Scenarios:   func(tier string) []*engine.Scenario { return C18Scenarios(tier) },
 		Extra:       func(tier string, shard, of int) ExtraResult { return GenesisExtra(tier, shard, of) }})
